@@ -93,12 +93,13 @@ type triple struct {
 }
 
 type codecConn struct {
-	failed int
-	pkts   []triple
-	cfg    simnet.LinkCfg
-	link   *simnet.Link
-	got    []triple
-	rerr   error
+	failPkt int // 1-based index of the packet whose first Write call fails once; 0 = none
+	failed  int
+	pkts    []triple
+	cfg     simnet.LinkCfg
+	link    *simnet.Link
+	got     []triple
+	rerr    error
 }
 
 func scenarioCodec(c *harness.Ctx) {
@@ -125,9 +126,10 @@ func scenarioCodec(c *harness.Ctx) {
 		}
 		cc.cfg = simnet.DrawCfgFor(tp, total)
 		if tp.Bool(1, 5) {
-			// one WritePacket fails once (timeout, nothing sent); the application
-			// carries on with the next packet on the same connection
-			cc.cfg.FailWriteCall = 1 + tp.Choose(n)
+			// the first Write call issued by one WritePacket fails once (timeout,
+			// nothing of that frame is accepted); the application carries on with
+			// the next packet on the same connection
+			cc.failPkt = 1 + tp.Choose(n)
 		}
 		conns[k] = cc
 	}
@@ -140,15 +142,18 @@ func scenarioCodec(c *harness.Ctx) {
 			w.Go(fmt.Sprintf("writer%d", k), func() {
 				wc := &mcnet.RCONConn{Conn: cc.link.A}
 				for i, p := range cc.pkts {
+					if cc.failPkt == i+1 {
+						cc.link.A.FailNextWrite()
+					}
 					if err := wc.WritePacket(p.id, p.typ, p.payload); err != nil {
-						if cc.cfg.FailWriteCall == i+1 {
+						if cc.failPkt == i+1 {
 							cc.failed = i // told to the application: not sent
 							continue
 						}
 						c.Fail("rcon.codec", "write", "error", "WritePacket %d failed: %v", i, err)
 						return
 					}
-					if cc.cfg.FailWriteCall == i+1 {
+					if cc.failPkt == i+1 {
 						c.Fail("rcon.codec", "write", "swallowed-error", "WritePacket %d returned nil although the connection's Write failed", i)
 						return
 					}
@@ -158,7 +163,7 @@ func scenarioCodec(c *harness.Ctx) {
 			w.Go(fmt.Sprintf("reader%d", k), func() {
 				rc := &mcnet.RCONConn{Conn: cc.link.B}
 				want := len(cc.pkts)
-				if cc.cfg.FailWriteCall > 0 {
+				if cc.failPkt > 0 {
 					want--
 				}
 				for i := 0; i < want; i++ {
@@ -185,7 +190,7 @@ func scenarioCodec(c *harness.Ctx) {
 	}
 	for k, cc := range conns {
 		pkts, got, link := cc.pkts, cc.got, cc.link
-		if cc.cfg.FailWriteCall > 0 {
+		if cc.failPkt > 0 {
 			if cc.failed < 0 {
 				c.Infra = "transient write failure configured but never hit"
 				return
@@ -195,7 +200,7 @@ func scenarioCodec(c *harness.Ctx) {
 		}
 		n := len(pkts)
 		if cc.rerr != nil {
-			c.Fail("rcon.codec", "read", "error", "connection %d of %d: ReadPacket %d of %d failed on a stream of valid frames: %v (failed write call: %d)", k, nConn, len(got), n, cc.rerr, cc.cfg.FailWriteCall)
+			c.Fail("rcon.codec", "read", "error", "connection %d of %d: ReadPacket %d of %d failed on a stream of valid frames: %v (packet whose write failed: %d)", k, nConn, len(got), n, cc.rerr, cc.failPkt)
 			return
 		}
 		for i := range pkts {
